@@ -890,6 +890,65 @@ fn optab(b: u8) -> String {
     format!("op {} back {} vendor {}", name, back, vend)
 }
 
+macro_rules! status_table {
+    ($($v:ident),*) => {
+        fn status_code(name: &str) -> Option<u8> {
+            match name { $(stringify!($v) => Some(ctap2::Error::$v as u8),)* _ => None }
+        }
+    };
+}
+status_table!(
+    Success, InvalidCommand, InvalidParameter, InvalidLength, InvalidSeq, Timeout, ChannelBusy, LockRequired, InvalidChannel,
+    CborUnexpectedType, InvalidCbor, MissingParameter, LimitExceeded, UnsupportedExtension, FingerprintDatabaseFull,
+    LargeBlobStorageFull, CredentialExcluded, Processing, InvalidCredential, UserActionPending, OperationPending, NoOperations,
+    UnsupportedAlgorithm, OperationDenied, KeyStoreFull, NotBusy, NoOperationPending, UnsupportedOption, InvalidOption,
+    KeepaliveCancel, NoCredentials, UserActionTimeout, NotAllowed, PinInvalid, PinBlocked, PinAuthInvalid, PinAuthBlocked, PinNotSet,
+    PinRequired, PinPolicyViolation, PinTokenExpired, RequestTooLarge, ActionTimeout, UpRequired, UvBlocked, IntegrityFailure,
+    InvalidSubcommand, UvInvalid, UnauthorizedPermission, Other, SpecLast, ExtensionFirst, ExtensionLast, VendorFirst, VendorLast
+);
+
+fn ident(kind: &str, arg: &str) -> String {
+    use ctap2::client_pin::Permissions as P;
+    use ctap2::AuthenticatorDataFlags as F;
+    match kind {
+        "credprotect" => match cm::CredentialProtectionPolicy::try_from(u8::from_str_radix(arg, 16).unwrap_or(0)) {
+            Ok(v) => format!("ok {:?}", v),
+            Err(e) => format!("err {:?}", e),
+        },
+        "control" => match ctap1::ControlByte::try_from(u8::from_str_radix(arg, 16).unwrap_or(0)) {
+            Ok(v) => format!("ok {:?} {:x}", v, v as u8),
+            Err(e) => format!("err {:?}", e),
+        },
+        "status" => match status_code(arg) {
+            Some(c) => format!("ok {:x}", c),
+            None => "unknown-name".into(),
+        },
+        "perm" => {
+            let b = match arg {
+                "MAKE_CREDENTIAL" => P::MAKE_CREDENTIAL,
+                "GET_ASSERTION" => P::GET_ASSERTION,
+                "CREDENTIAL_MANAGEMENT" => P::CREDENTIAL_MANAGEMENT,
+                "BIO_ENROLLMENT" => P::BIO_ENROLLMENT,
+                "LARGE_BLOB_WRITE" => P::LARGE_BLOB_WRITE,
+                "AUTHENTICATOR_CONFIGURATION" => P::AUTHENTICATOR_CONFIGURATION,
+                _ => return "unknown-name".into(),
+            };
+            format!("ok {:x}", b.bits())
+        }
+        "flag" => {
+            let b = match arg {
+                "USER_PRESENCE" => F::USER_PRESENCE,
+                "USER_VERIFIED" => F::USER_VERIFIED,
+                "ATTESTED_CREDENTIAL_DATA" => F::ATTESTED_CREDENTIAL_DATA,
+                "EXTENSION_DATA" => F::EXTENSION_DATA,
+                _ => return "unknown-name".into(),
+            };
+            format!("ok {:x}", b.bits())
+        }
+        _ => "unknown-op".into(),
+    }
+}
+
 fn run(op: &str, a: &[&str]) -> String {
     match (op, a.len()) {
         ("dec2", 1) => {
@@ -935,6 +994,7 @@ fn run(op: &str, a: &[&str]) -> String {
                 _ => "unbuildable coordinate longer than 32".into(),
             }
         }
+        ("ident", 2) => ident(a[0], a[1]),
         ("optab", 1) => optab(u8::from_str_radix(a[0], 16).unwrap_or(0)),
         _ => "unknown-op".into(),
     }
